@@ -49,7 +49,7 @@ DIGITS = ["alt", [["lit", d] for d in "0123456789"]]
 @st.composite
 def template_specs(draw: Any) -> dict[str, Any]:
     """Hand-shaped families that make the repair operators fire."""
-    fam = draw(st.sampled_from(["crep", "eq", "gen", "crep_nested", "parity"]))
+    fam = draw(st.sampled_from(["crep", "eq", "gen", "crep_nested", "parity", "nested_same", "nested_same"]))
     lo = draw(st.integers(0, 2))
     item = draw(st.sampled_from([
         ["alt", [["lit", "a"], ["seq", [["lit", "b"], ["opt", ["nt", "item"]]]]]],
@@ -57,6 +57,20 @@ def template_specs(draw: Any) -> dict[str, Any]:
         ["rx", "[ab]{1,2}"],
         ["alt", [["lit", "p"], ["lit", "q"]]],
     ]))
+    if fam == "nested_same":
+        # the same postfix operator nested in itself, under symbols that equality repairs re-parse
+        op = draw(st.sampled_from(["opt", "star", "plus"]))
+        inner = [op, ["lit", "a"]]
+        x = ["seq", [[op, ["alt", [["lit", "c"], ["seq", [["lit", "b"], inner]]]]], ["lit", "!"]]]
+        y = ["seq", [[op, ["seq", [[op, ["lit", "d"]], ["lit", "e"]]]], ["lit", "."]]]
+        rules = [["start", ["seq", [["nt", "x"], ["nt", "y"]]]], ["x", x], ["y", y]]
+        spec0 = {"rules": rules, "mode": "text", "alphabet": "ab"}
+        sem = S.Sem(spec0)
+        cons = []
+        for nt in ("x", "y"):
+            ws = sem.enumerate_words(nt, max_len=6, cap=60)
+            cons.append(f"str(<{nt}>) == {ws[draw(st.integers(0, len(ws) - 1))]!r}")
+        return dict(spec0, constraints=cons, family=fam)
     if fam == "crep":
         rules = [["start", ["seq", [["nt", "len"], ["lit", ":"], ["crep", ["nt", "item"], "int(<len>)"]]]],
                  ["len", ["nt", "d"]], ["d", ["alt", [["lit", c] for c in draw(st.sampled_from(["123", "0123", "2468", "19"]))]]],
